@@ -181,6 +181,8 @@ func runJobs(jobs []*Job, nworkers int, progress bool) ([]*JobResult, error) {
 		cur.Queries += r.Queries
 		cur.SolverTimeS += r.SolverTimeS
 		cur.Unknown += r.Unknown
+		cur.CrossChecked += r.CrossChecked
+		cur.Disagreements += r.Disagreements
 		cur.CutThird += r.CutThird
 		cur.WallS += r.WallS
 		if r.Terms > cur.Terms {
@@ -784,6 +786,7 @@ func allFailed(rs []*JobResult) bool {
 
 type totals struct {
 	paths, forks, queries, unknown, inconcl, cut int
+	cross, disagree                              int
 	solverS                                     float64
 	decided                                     map[string]int
 }
@@ -797,6 +800,8 @@ func summarize(results []*JobResult) totals {
 		t.paths += r.Paths
 		t.forks += r.Forks
 		t.queries += r.Queries
+		t.cross += r.CrossChecked
+		t.disagree += r.Disagreements
 		t.unknown += r.Unknown
 		t.cut += r.CutThird
 		t.solverS += r.SolverTimeS
@@ -867,6 +872,7 @@ func writeEvidence(prop, tier string, spec *checkSpec, jobs []*Job, results []*J
 		"solver_time_s":                 round2(tot.solverS),
 		"decided_by":                    tot.decided,
 		"unknown":                       tot.unknown,
+		"cross_check":                   map[string]any{"queries_put_to_a_second_solver": tot.cross, "disagreements": tot.disagree, "rule": "every 64th decided query (VERIF_CROSSCHECK=n: every n-th) is also decided by the next solver of the portfolio; a definite answer that differs fails the job"},
 		"inconclusive_paths":            tot.inconcl,
 		"cut_third_party":               tot.cut,
 		"path_endings":                  ended,
